@@ -1099,3 +1099,103 @@ func flattenBlocks(filename string, src []byte) ([]byte, error) {
 	}
 	return buf.Bytes(), nil
 }
+
+// deferWrap rewrites `defer H(args)` into `defer func() { H(args) }()`. A deferred call evaluates its operands at the
+// defer statement, the wrapped form at function exit; the rewrite is made only when that cannot matter: every operand
+// (and the receiver) is the address of a variable, a literal or constant, or a parameter/receiver of the enclosing
+// function that is never assigned.
+func deferWrap(p *packages.Package, file *ast.File, call *ast.CallExpr, content []byte) ([]byte, error) {
+	info := p.TypesInfo
+	fset := p.Fset
+	off := func(pos token.Pos) int { return fset.Position(pos).Offset }
+	path, _ := astutil.PathEnclosingInterval(file, call.Pos(), call.End())
+	var ds *ast.DeferStmt
+	var encl *ast.FuncDecl
+	for _, n := range path {
+		if d, ok := n.(*ast.DeferStmt); ok && ds == nil {
+			ds = d
+		}
+		if fd, ok := n.(*ast.FuncDecl); ok {
+			encl = fd
+		}
+	}
+	if ds == nil || ds.Call != call || encl == nil {
+		return nil, fmt.Errorf("not the call of a defer statement")
+	}
+	assigned := map[types.Object]bool{}
+	ast.Inspect(encl.Body, func(n ast.Node) bool {
+		switch x := n.(type) {
+		case *ast.AssignStmt:
+			for _, l := range x.Lhs {
+				if id, ok := ast.Unparen(l).(*ast.Ident); ok {
+					if o := info.Uses[id]; o != nil {
+						assigned[o] = true
+					}
+				}
+			}
+		case *ast.IncDecStmt:
+			if id, ok := ast.Unparen(x.X).(*ast.Ident); ok {
+				if o := info.Uses[id]; o != nil {
+					assigned[o] = true
+				}
+			}
+		case *ast.UnaryExpr:
+			if x.Op == token.AND {
+				if id, ok := ast.Unparen(x.X).(*ast.Ident); ok {
+					if o := info.Uses[id]; o != nil {
+						assigned[o] = true
+					}
+				}
+			}
+		}
+		return true
+	})
+	stable := func(e ast.Expr) bool {
+		e = ast.Unparen(e)
+		if tv, ok := info.Types[e]; ok && tv.Value != nil {
+			return true
+		}
+		switch x := e.(type) {
+		case *ast.BasicLit:
+			return true
+		case *ast.UnaryExpr:
+			if x.Op == token.AND {
+				_, ok := ast.Unparen(x.X).(*ast.Ident)
+				return ok
+			}
+		case *ast.Ident:
+			// a parameter or a local that is defined once and never written again (no `=`, `++`, no address taken)
+			o := info.Uses[x]
+			if v, ok := o.(*types.Var); ok && !v.IsField() && v.Pkg() != nil && v.Parent() != v.Pkg().Scope() {
+				return !assigned[o]
+			}
+			return false
+		}
+		return false
+	}
+	for _, a := range call.Args {
+		if !stable(a) {
+			return nil, fmt.Errorf("operand %s may change between the defer statement and function exit", types.ExprString(a))
+		}
+	}
+	if se, ok := ast.Unparen(call.Fun).(*ast.SelectorExpr); ok {
+		if _, isPkg := info.Uses[firstIdent(se.X)].(*types.PkgName); !isPkg && !stable(se.X) {
+			return nil, fmt.Errorf("receiver %s may change between the defer statement and function exit", types.ExprString(se.X))
+		}
+	}
+	callText := string(content[off(call.Pos()):off(call.End())])
+	return applyEdits(content, []textEdit{{off(call.Pos()), off(call.End()), "func() {\n" + callText + "\n}()"}}), nil
+}
+
+func firstIdent(e ast.Expr) *ast.Ident {
+	for {
+		switch x := ast.Unparen(e).(type) {
+		case *ast.Ident:
+			return x
+		case *ast.SelectorExpr:
+			e = x.X
+		default:
+			return nil
+		}
+	}
+}
